@@ -245,7 +245,8 @@ Section Proofs.
 
   Lemma close_ext cat info st st' : close cat info st = Ok st' -> ext st st'.
   Proof.
-    unfold Writer.close. destruct (strm st); [discriminate|].
+    intros Hc0; apply close_ok in Hc0; revert Hc0.
+    unfold Writer.close0. destruct (strm st); [discriminate|].
     intros H. binv H. destruct a as [croot st1]. binv Hk. binv Hk0. destruct a0 as [iref st5].
     cbv zeta in Hk. binv Hk. inversion Hk0; subst.
     eapply ext_trans; [eapply alloc_ext; eassumption|].
@@ -267,7 +268,8 @@ Section Proofs.
 
   Lemma step_ext st o st' : step st o = Ok st' -> ext st st'.
   Proof.
-    unfold Writer.step. destruct (closed st); [discriminate|]. destruct o.
+    intros Hs0; apply step_ok in Hs0; revert Hs0.
+    unfold Writer.step0. destruct (closed st); [discriminate|]. destruct o.
     - intros H. binv H. destruct a as [r st1]. inversion Hk; subst. eapply alloc_ext; eassumption.
     - apply put_ext.
     - apply write_compressed_ext.
